@@ -156,6 +156,119 @@ static std::string values_str(raw_list l) {
   return o.empty() ? "-" : o;
 }
 
+
+// ---------------------------------------------------------------- datagram level
+#include <sys/socket.h>
+#include <netinet/in.h>
+#include <unistd.h>
+#include <fcntl.h>
+#include "torrent/object_stream.h"
+
+static std::map<uint32_t, int> g_socks;      // scripted nodes: one UDP socket per loopback source address
+static int script_sock(uint32_t ip) {
+  auto it = g_socks.find(ip);
+  if (it != g_socks.end()) return it->second;
+  int fd = socket(AF_INET, SOCK_DGRAM | SOCK_NONBLOCK, 0);
+  sockaddr_in sin = mk_sin(ip, 0);
+  if (fd < 0 || bind(fd, reinterpret_cast<sockaddr*>(&sin), sizeof sin) != 0) throw std::runtime_error("bind scripted socket");
+  g_socks[ip] = fd;
+  return fd;
+}
+static void close_socks() {
+  for (auto& [ip, fd] : g_socks) close(fd);
+  g_socks.clear();
+}
+
+static std::string bstr(const std::string& raw) { return std::to_string(raw.size()) + ":" + raw; }
+// field: "~" absent, "!" wrong type on the wire, else hex ("-" = empty string)
+static void put_str(std::string& out, const char* key, const std::string& f) {
+  if (f == "~") return;
+  out += bstr(key);
+  out += f == "!" ? std::string("i7e") : bstr(unhex(f));
+}
+
+static std::string us(std::string s) { for (auto& c : s) if (c == ' ') c = '_'; return s; }
+
+// decode one datagram the scripted node received; "" for a (well-formed) ping query of the server
+static std::string show_datagram(const std::string& d, const HashString& own) {
+  Object o;
+  try {
+    if (object_read_bencode_c(d.data(), d.data() + d.size(), &o) != d.data() + d.size() || !o.is_map()) return "UNDECODABLE";
+  } catch (bencode_error&) { return "UNDECODABLE"; }
+  if (!o.has_key_string("y")) return "NO-Y";
+  const std::string& y = o.get_key_string("y");
+  std::string t = o.has_key_string("t") ? hex(o.get_key_string("t")) : "~";
+  if (!o.has_key_string("v")) return "NO-V";
+  if (y == "q") {
+    if (o.has_key_string("q") && o.get_key_string("q") == "ping" && o.has_key_map("a") && o.get_key("a").has_key_string("id") &&
+        o.get_key("a").get_key_string("id") == std::string(own.data(), 20))
+      return "";
+    return "ODD-QUERY";
+  }
+  if (y == "r") {
+    if (!o.has_key_map("r")) return "r NO-BODY";
+    const Object& r = o.get_key("r");
+    std::string out = "r t=" + t + " id=" + (r.has_key_string("id") ? hex(r.get_key_string("id")) : "~");
+    out += " tok=" + (r.has_key_string("token") ? hex(r.get_key_string("token")) : std::string("~"));
+    out += " n=" + (r.has_key_string("nodes") ? hex(r.get_key_string("nodes")) : std::string("~"));
+    if (r.has_key_list("values")) {
+      std::string v;
+      for (auto& x : r.get_key_list("values")) {
+        if (!v.empty()) v += ",";
+        v += x.is_string() ? hex(x.as_string()) : "?";
+      }
+      out += " v=" + (v.empty() ? "-" : v);
+    } else out += " v=~";
+    for (auto& kv : r.as_map())
+      if (kv.first != "id" && kv.first != "token" && kv.first != "nodes" && kv.first != "values") out += " EXTRA:" + hex(kv.first);
+    return out;
+  }
+  if (y == "e") {
+    if (!o.has_key_list("e") || o.get_key_list("e").size() != 2) return "e BAD-BODY";
+    auto& l = o.get_key_list("e");
+    if (!l.front().is_value() || !l.back().is_string()) return "e BAD-BODY";
+    std::string msg = l.back().as_string();
+    if (msg.compare(0, 16, "Malformed packet") == 0) msg = "Malformed packet";
+    return "e t=" + t + " " + std::to_string(l.front().as_value()) + " " + us(msg);
+  }
+  return "ODD-Y";
+}
+
+static std::string send_and_collect(DhtRouter* r, uint32_t ip, const std::string& payload, long rnd, const HashString& own) {
+  int fd = script_sock(ip);
+  sockaddr_in srv{};
+  socklen_t sl = sizeof srv;
+  getsockname(r->m_server.file_descriptor(), reinterpret_cast<sockaddr*>(&srv), &sl);
+  sockaddr_in dst = mk_sin(0x7f000001, ntohs(srv.sin_port));
+  if (sendto(fd, payload.data(), payload.size(), 0, reinterpret_cast<sockaddr*>(&dst), sizeof dst) != (ssize_t)payload.size())
+    throw std::runtime_error("sendto");
+  g_rnd.clear();
+  g_rnd.push_back(rnd);
+  r->m_server.event_read();
+  g_rnd.clear();
+  if (!r->m_server.m_highQueue.empty() || !r->m_server.m_lowQueue.empty())
+    r->m_server.event_write();
+  std::string out;
+  int pings = 0;
+  // everything that arrived at ANY scripted socket: replies must come to the source only
+  for (auto& [sip, sfd] : g_socks) {
+    char buf[4096];
+    while (true) {
+      sockaddr_in from{};
+      socklen_t fl = sizeof from;
+      ssize_t n = recvfrom(sfd, buf, sizeof buf, 0, reinterpret_cast<sockaddr*>(&from), &fl);
+      if (n < 0) break;
+      std::string sd = show_datagram(std::string(buf, n), own);
+      if (sd.empty()) { pings++; continue; }
+      if (from.sin_port != srv.sin_port) sd += " WRONG-SOURCE-PORT";
+      if (sip != ip) sd += " TO-OTHER-ADDRESS";
+      if (!out.empty()) out += " + ";
+      out += sd;
+    }
+  }
+  return out.empty() ? "none" : out;
+}
+
 static long long g_now;
 static void set_now(long long s) {
   g_now = s;
@@ -254,6 +367,25 @@ static std::string run_case(const std::vector<std::string>& t) {
           raw_string n = reply[key_r_nodes].as_raw_string();
           res = "n=" + hex(n.data(), n.size());
         } catch (network_error& e) { res = std::string("err:") + e.what(); }
+      } else if (k == "U") {
+        // U,ip,rnd,t,y,q,id,target,ih,token,port
+        uint32_t ip = std::stoul(f.at(1));
+        std::string a;
+        put_str(a, "id", f.at(6));
+        put_str(a, "info_hash", f.at(8));
+        if (f.at(10) != "~") a += bstr("port") + (f.at(10) == "!" ? std::string("1:x") : "i" + f.at(10) + "e");
+        put_str(a, "target", f.at(7));
+        put_str(a, "token", f.at(9));
+        std::string d = "d";
+        if (!a.empty()) d += "1:ad" + a + "e";
+        put_str(d, "q", f.at(5));
+        put_str(d, "t", f.at(3));
+        put_str(d, "y", f.at(4));
+        d += "e";
+        if (f.at(4) == "72" || f.at(4) == "65") res = "x";     // replies / errors are not modelled
+        else res = send_and_collect(r.get(), ip, d, std::stol(f.at(2)), own);
+      } else if (k == "X") {
+        res = send_and_collect(r.get(), std::stoul(f.at(1)), unhex(f.at(2)), 0, own);
       } else if (k == "W") {
         res = r->want_node(hs(f.at(1))) ? "1" : "0";
       } else if (k == "D") {
@@ -269,9 +401,12 @@ static std::string run_case(const std::vector<std::string>& t) {
   } catch (internal_error& e) {
     out += "ERR:internal";
     fprintf(stderr, "internal_error: %s\n", e.what());
+  } catch (std::exception& e) {
+    out += std::string("ERR:other ") + e.what();
   }
   r->stop();
   r.reset();
+  close_socks();
   return out;
 }
 
